@@ -300,3 +300,28 @@ func explain(path string) int {
 	fmt.Printf("re-run    ./run.sh %s quick\n", strings.TrimSpace(v.Property))
 	return 0
 }
+
+// shared runs a rule set that belongs to another property into a scratch result and copies the obligations that keep
+// accepts into r. When the rule set stops as undecided, the violations it had already recorded are copied first: a
+// finding is not lost because a later part of the shared rules met a shape it does not know.
+func shared(r *Result, keep func(Ob) bool, f func(sub *Result)) {
+	sub := &Result{Prop: r.Prop}
+	copyObs := func(onlyViolations bool) {
+		for _, o := range sub.Obs {
+			if onlyViolations && o.Verdict != VViolation {
+				continue
+			}
+			if keep == nil || keep(o) {
+				r.add(o)
+			}
+		}
+	}
+	defer func() {
+		if p := recover(); p != nil {
+			copyObs(true)
+			panic(p)
+		}
+	}()
+	f(sub)
+	copyObs(false)
+}
